@@ -3,6 +3,7 @@
 
 mod checks;
 mod hclient;
+mod ffiutil;
 mod hserver;
 mod net;
 mod refmodel;
